@@ -655,7 +655,21 @@ pub fn check_main(e: &dyn Engine, tier: Tier, seed: u64, workers: usize, runs_ov
         std::fs::create_dir_all(&repl_dir).ok();
         let hangish = v.invariant == "T4" || v.key == "T1:abort";
         // (A) the run alone, in a fresh process
-        let alone = exec_fresh(e.id(), plan, &tmp, if hangish { e.run_timeout() } else { Duration::from_secs(60) });
+        // up to ten attempts: a failure that depends on hash order inside the process (std / ahash random
+        // state, which no seam controls) shows in most fresh processes, not in every one
+        let mut alone = exec_fresh(e.id(), plan, &tmp, if hangish { e.run_timeout() } else { Duration::from_secs(60) });
+        if !hangish {
+            for _attempt in 0..9 {
+                let hit = match &alone {
+                    Ok(rep) => has_same(rep, &v.invariant, &v.key).is_some() || rep.violations.iter().any(|o| is_known(&known, e.id(), &o.key).is_none()),
+                    Err(_) => false,
+                };
+                if hit {
+                    break;
+                }
+                alone = exec_fresh(e.id(), plan, &tmp, Duration::from_secs(60));
+            }
+        }
         let mut target: Option<Violation> = None;
         let mut prelude: Vec<Value> = Vec::new();
         match &alone {
@@ -949,6 +963,17 @@ pub fn replay_main(engines: &[&dyn Engine], path: &str) -> i32 {
         }
     }
     if rep.violations.is_empty() {
+        // a failure that depends on hash order inside the process (random state of std / ahash maps, which no
+        // seam controls) does not show in every process: try fresh processes before giving up
+        for attempt in 2..=10 {
+            if let Ok(r) = exec_fresh(e.id(), &rf.plan, &root.join("replays/tmp"), Duration::from_secs(60)) {
+                if let Some(v) = r.violations.iter().find(|v| is_known(&known, e.id(), &v.key).is_none()) {
+                    println!("(reproduced in fresh process #{attempt}: the failure depends on per-process hash order)");
+                    println!("VIOLATION property={} replay={} invariant={} key={} :: {}", e.id(), path, v.invariant, v.key, v.detail);
+                    return 1;
+                }
+            }
+        }
         println!("replay: no violation (expected {} {})", rf.invariant, rf.key);
     }
     rc
